@@ -82,9 +82,14 @@ def random_case(rng):
     n = rng.randint(10, 48)
     alive = ()
     seq = []
+    clones = 1
     for _ in range(n):
         live = sum(alive)
-        if rng.random() < 0.03:
+        if clones > 1 and rng.random() < 0.12:
+            # drop the newest cloned Counter handle (model: DropClone — touches nothing)
+            t = "h"
+            clones -= 1
+        elif rng.random() < 0.03:
             t = "d%d" % rng.randint(0, len(alive) + 1)
         else:
             # hover around the capacity: acquire more when below, drop more when above
@@ -94,6 +99,8 @@ def random_case(rng):
             weights = [wa if t[0] == "a" else (wd / max(1, live)) if t[0] == "d" else 0.9 if t[0] == "v" else 0.3 for t in ops]
             t = rng.choices(ops, weights)[0]
         seq.append(t)
+        if t == "k":
+            clones += 1
         if t[0] != "d" or (int(t[1:]) < len(alive) and alive[int(t[1:])]):
             alive = track17(alive, t)
     return "%d|%s" % (cap, " ".join(seq))
@@ -126,7 +133,7 @@ def to_coq17(case, model):
     cap, ops = case.split("|", 1)
 
     def op(t):
-        return {"a": "Acquire", "k": "Clone"}.get(t[0]) or {"d": "DropGuard", "v": "Available"}[t[0]] + " " + t[1:]
+        return {"a": "Acquire", "k": "Clone", "h": "DropClone"}.get(t[0]) or {"d": "DropGuard", "v": "Available"}[t[0]] + " " + t[1:]
 
     def ob(t):
         a, tot = t.split("/")
